@@ -136,22 +136,38 @@ def errName : Err → String
   | .sender => "sender" | .underpriced => "underpriced" | .nonce => "nonce" | .funds => "funds"
   | .intrinsic => "intrinsic" | .replace => "replace"
 
-/-- model of a single add with inferred oracles, trying fewer victims when the heap held duplicates -/
+/-- all ways to choose `n` elements of a list (order kept) -/
+def choose : Nat → List Tx → List (List Tx)
+  | 0, _ => [[]]
+  | _ + 1, [] => []
+  | n + 1, x :: xs => (choose n xs).map (x :: ·) ++ choose (n + 1) xs
+
+/-- candidate victim sets of size `n`: everything strictly cheaper than the boundary price plus any choice among the
+    transactions at the boundary price (the heap order among equal prices is not modelled) -/
+def victimCandidates (s o : Pool) (n : Nat) : List (List Tx) :=
+  let sorted := guessVictims s o (s.all.length)
+  match sorted.drop (n - 1) with
+  | [] => [sorted]
+  | b :: _ =>
+    let cheaper := sorted.filter (fun t => decide (t.price < b.price))
+    let ties := sorted.filter (fun t => t.price == b.price)
+    ((choose (n - cheaper.length) ties).take 64).map (cheaper ++ ·)
+
+/-- model of a single add with inferred oracles, trying every tie resolution of the Discard, and fewer victims when the
+    heap held duplicates -/
 def runAdd (k : Nat) (s o : Pool) (t : Tx) (loc : Bool) (sh : Shape) (res : String) : Option String :=
   let cnt := if isFull s then discardCount s else 0
-  let tries := (List.range (cnt + 1)).reverse   -- cnt, cnt-1, …, 0
-  let attempt (n : Nat) : Option String :=
-    let vs := guessVictims s o n
+  let attempt (vs : List Tx) : Option String :=
     let loc' := loc && !s.cfg.noLocals
     let r := s.add t loc' sh vs
     let fin := if r.1 = .ok && !r.2.1 then (promoteInfer k r.2.2 (some [t.sender]) o).1 else r.2.2
-    -- cross-check against the packaged operation
     if errName r.1 != res then some s!"result: model {errName r.1} go {res}"
     else if !victimsMinimal s (s.sanitizeVictims cnt vs) then some "victims not minimal"
     else diffState k fin o
-  match tries.find? (fun n => (attempt n).isNone) with
+  let cands := if cnt == 0 then [[]] else ((List.range cnt).reverse.flatMap (fun n => victimCandidates s o (n + 1))) ++ [[]]
+  match cands.find? (fun vs => (attempt vs).isNone) with
   | some _ => none
-  | none => attempt cnt
+  | none => attempt (cands.headD [])
 
 structure ManyResult where
   errs : List Err
@@ -262,7 +278,8 @@ def handle (l : String) : String :=
   let (s, k) := parseState cfg fi
   let (o, _) := parseState cfg fo
   let res := kv fo "res"
-  let op := (kv fi "op").splitOn ":"
+  let op := kv fi "op"
+  let arg (k : String) : String := kv fi ("o." ++ k)
   let finish (adds : Nat) (limits : Bool) (isReset : Bool) (extra : Option String) (d : Option String) (weakOK : Bool) : String :=
     -- Spec first
     let spec : Option String :=
@@ -280,59 +297,34 @@ def handle (l : String) : String :=
       | none => "ok\tagree"
       | some w => if weakOK then "weak\tagree" else (w ++ "\tspec-ok")
   match op with
-  | ["check"] => finish 0 false false none none false
-  | "add" :: lc :: shp :: rest =>
-    match parseTx (":".intercalate rest) with
+  | "check" => finish 0 false false none none false
+  | "add" =>
+    match parseTx (arg "tx") with
     | none => "bad-op\tagree"
     | some t =>
+      let shp := arg "kind"
       let sh : Shape := if shp == "1" then .oversized else if shp == "2" then .badsig else .wellformed
-      finish 1 false false none (runAdd k s o t (lc == "1") sh res) false
-  | "adds" :: lc :: rest =>
-    let ts := parseTxs (":".intercalate rest)
-    let r := runAdds k s o ts (lc == "1") res
+      finish 1 false false none (runAdd k s o t (arg "loc" == "1") sh res) false
+  | "adds" =>
+    let ts := parseTxs (arg "txs")
+    let r := runAdds k s o ts (arg "loc" == "1") res
     finish ts.length false false none r.1 r.2
-  | ["price", p] =>
-    finish 0 false false none (diffState k (s.setGasPrice (nat! p)) o) false
-  | "reset" :: oldN :: newN :: _same :: linear :: mg :: view :: rest =>
-    -- rest = disc txs … ":" … inc txs; both lists are comma separated, every tx has 5 colon separated fields
-    let joined := ":".intercalate rest
-    -- split the two lists: tokens are separated by ':'; a list boundary is where a token is "-" or after 5k fields
-    let toks := joined.splitOn ":"
-    let takeList (ts : List String) : List Tx × List String :=
-      match ts with
-      | "-" :: r => ([], r)
-      | _ =>
-        -- consume groups until a group's last field does not contain a comma
-        let rec go (fuel : Nat) (ts : List String) (cur : List String) (acc : List Tx) : List Tx × List String :=
-          match fuel with
-          | 0 => (acc.reverse, ts)
-          | fuel + 1 =>
-            match ts with
-            | [] => (acc.reverse, [])
-            | x :: r =>
-              if cur.length < 4 then go fuel r (cur ++ [x]) acc
-              else
-                -- x is the value field, possibly followed by ",<sender of the next tx>"
-                match x.splitOn "," with
-                | [v] =>
-                  let t := parseTx (":".intercalate (cur ++ [v]))
-                  ((match t with | some t => t :: acc | none => acc).reverse, r)
-                | [v, nxt] =>
-                  let t := parseTx (":".intercalate (cur ++ [v]))
-                  go fuel r [nxt] (match t with | some t => t :: acc | none => acc)
-                | _ => (acc.reverse, r)
-        go (ts.length + 1) ts [] []
-    let (disc, r1) := takeList toks
-    let (inc, _) := takeList r1
-    let v := parseView view (nat! mg)
-    let reorg := linear != "1"
-    let a := runReset false k s o v (nat! oldN) (nat! newN) reorg disc inc
+  | "price" =>
+    finish 0 false false none (diffState k (s.setGasPrice (nat! (arg "p"))) o) false
+  | "reset" =>
+    let disc := parseTxs (arg "disc")
+    let inc := parseTxs (arg "inc")
+    let oldN := nat! (arg "old")
+    let newN := nat! (arg "new")
+    let v := parseView (arg "view") (nat! (arg "mg"))
+    let reorg := arg "lin" != "1"
+    let a := runReset false k s o v oldN newN reorg disc inc
     let d := match a.1 with
       | none => none
-      | some w => match (runReset true k s o v (nat! oldN) (nat! newN) reorg disc inc).1 with
+      | some w => match (runReset true k s o v oldN newN reorg disc inc).1 with
         | none => none
         | some _ => some w
-    finish disc.length true true (reorgFail s o (nat! oldN) (nat! newN) reorg disc inc) d a.2
+    finish disc.length true true (reorgFail s o oldN newN reorg disc inc) d a.2
   | _ => "bad-op\tagree"
 
 def main : IO Unit := runLines handle
